@@ -382,6 +382,70 @@ done:
     ZSTD_freeCCtxParams(pp); free(src); free(dst);
 }
 
+
+/* ---- history on ONE static CCtx: HIST placement size seed  pp(19 tokens)  op op ...
+ *   op = L:<lvl>:<srcLen>  ZSTD_compressCCtx at that level
+ *        2:<srcLen>        ZSTD_compress2 with the parameter set pp       S:<srcLen>  ZSTD_compressStream2(continue,end) with pp
+ *   an op may carry a repetition count  *<n>  (hex).  Output: one token per executed op
+ *   K/<cwksp_used>  (compressed and round-tripped) | M (memory_allocation) | E<code> | BADROUNDTRIP ; then the final
+ *   bump pointers relative to the block start, ws->workspaceOversizedDuration, and the reservation log of the last op */
+static void do_hist(char** a, int n) {
+    unsigned placement = (unsigned)hx(a[1]); size_t size = (size_t)hx(a[2]); unsigned seed = (unsigned)hx(a[3]);
+    zv_region r; char* ws; ZSTD_CCtx* cctx; ZSTD_CCtx_params* pp = ZSTD_createCCtxParams();
+    size_t const maxSrc = 1 << 20; unsigned char* src = (unsigned char*)malloc(maxSrc + 1);
+    size_t const dstCap = ZSTD_compressBound(maxSrc) + 64; unsigned char* dst = (unsigned char*)malloc(dstCap);
+    unsigned char* back = (unsigned char*)malloc(maxSrc + 1); ZSTD_DCtx* d = ZSTD_createDCtx(); int i; int ppOk;
+    if (!zv_region_make(&r, size)) { printf("SKIP mmap\n"); goto done0; }
+    ws = zv_place(&r, size, placement);
+    ZSTD_DCtx_setParameter(d, ZSTD_d_windowLogMax, 31);
+    ppOk = !ZSTD_isError(set_pp(pp, a + 4));
+    zv_nlog = 0; zv_logging = 1; zv_armed = 1;
+    if (sigsetjmp(zv_jmp, 1)) { zv_armed = 0; zv_logging = 0; printf("SEGV start=%llx\n", (u64)(size_t)ws); goto done; }
+    cctx = ZSTD_initStaticCCtx(ws, size);
+    if (cctx == NULL) { zv_armed = 0; zv_logging = 0; printf("NULL start=%llx\n", (u64)(size_t)ws); goto done; }
+    printf("OK start=%llx ops=", (u64)(size_t)ws);
+    for (i = 23; i < n; i++) {
+        char k = a[i][0]; long long lvl = 0; u64 len = 0; u64 reps = 1; u64 q; char* t = a[i] + 2; char* star;
+        star = strchr(t, '*'); if (star) { *star = 0; reps = hx(star + 1); }
+        if (k == 'L') { char* c2 = strchr(t, ':'); if (!c2) { printf("BADTOKEN "); continue; } *c2 = 0; lvl = hxs(t); len = hx(c2 + 1); }
+        else len = hx(t);
+        if (len > maxSrc) len = maxSrc;
+        for (q = 0; q < reps; q++) {
+            size_t res;
+            gen_data(src, (size_t)len, seed + (unsigned)i + (unsigned)q);
+            zv_nlog = 0; zv_logging = 1;
+            if (k == 'L') res = ZSTD_compressCCtx(cctx, dst, dstCap, src, (size_t)len, (int)lvl);
+            else if (!ppOk) { printf("BADPARAM "); continue; }
+            else {
+                ZSTD_CCtx_reset(cctx, ZSTD_reset_session_and_parameters);
+                res = ZSTD_CCtx_setParametersUsingCCtxParams(cctx, pp);
+                if (!ZSTD_isError(res)) {
+                    if (k == '2') res = ZSTD_compress2(cctx, dst, dstCap, src, (size_t)len);
+                    else { ZSTD_inBuffer in = { src, (size_t)len, 0 }; ZSTD_outBuffer out = { dst, dstCap, 0 };
+                        res = ZSTD_compressStream2(cctx, &out, &in, ZSTD_e_continue);
+                        if (zv_nlog > 0) zv_logging = 0;
+                        while (!ZSTD_isError(res)) { res = ZSTD_compressStream2(cctx, &out, &in, ZSTD_e_end); zv_logging = 0; if (res == 0) break; if (out.pos == out.size) { res = ERROR(dstSize_tooSmall); break; } }
+                        if (!ZSTD_isError(res)) res = out.pos; }
+                }
+            }
+            zv_logging = 0;
+            if (ZSTD_isError(res)) { if (ZSTD_getErrorCode(res) == ZSTD_error_memory_allocation) printf("M "); else printf("E%d ", (int)ZSTD_getErrorCode(res)); continue; }
+            {   size_t const dr = ZSTD_decompressDCtx(d, back, (size_t)len, dst, res);
+                if (ZSTD_isError(dr) || dr != (size_t)len || memcmp(back, src, (size_t)len) != 0) printf("BADROUNDTRIP ");
+                else printf("K/%llx ", (u64)ZSTD_cwksp_used(&cctx->workspace)); }
+        }
+    }
+    zv_armed = 0;
+    {   ZSTD_cwksp* w = &cctx->workspace;
+        printf("end=%llx:%llx:%llx dur=%d failed=%d sizeof=%llx", (u64)((char*)w->objectEnd - ws), (u64)((char*)w->tableEnd - ws), (u64)((char*)w->allocStart - ws),
+               w->workspaceOversizedDuration, (int)ZSTD_cwksp_reserve_failed(w), (u64)ZSTD_sizeof_CCtx(cctx)); }
+    print_log(); printf("\n");
+done:
+    zv_armed = 0; zv_logging = 0; zv_region_free(&r);
+done0:
+    ZSTD_freeDCtx(d); ZSTD_freeCCtxParams(pp); free(src); free(dst); free(back);
+}
+
 int main(void) {
     static char line[1 << 16]; char* a[4096];
     struct sigaction sa; memset(&sa, 0, sizeof sa); sa.sa_sigaction = zv_segv; sa.sa_flags = SA_SIGINFO | SA_NODEFER; sigemptyset(&sa.sa_mask);
@@ -420,6 +484,7 @@ int main(void) {
         else if (!strcmp(a[0], "DDICT")) do_ddict(a);
         else if (!strcmp(a[0], "DRT")) do_drt(a);
         else if (!strcmp(a[0], "HEAP")) do_heap(a);
+        else if (!strcmp(a[0], "HIST")) do_hist(a, n);
         else if (!strcmp(a[0], "SIZES")) printf("%llx %llx %llx %llx\n", (u64)sizeof(ZSTD_CCtx), (u64)sizeof(ZSTD_DCtx), (u64)sizeof(ZSTD_CDict), (u64)sizeof(ZSTD_DDict));
         else printf("UNKNOWN-CASE %s\n", a[0]);
         fflush(stdout);
